@@ -13,6 +13,13 @@ HARNESSES = [
     stubs=['EXPRESSusage/ERRORusage_function: record the call', 'fprintf: empty body'],
     out_of_claim='fedex.c option parsing that calls these (see C04 main gating)',
     timeout={'quick': 300, 'thorough': 900}),
+  H('setwarn_table', 'c', 'harness/C20/h_setwarn.c', tracked=['src/express/error.c'],
+    defs={'NAMELEN': 8, 'TABLE_NAMES': 1}, unwind=81,
+    cflags=['-I/repo'], models=['lib/cmodels/printf_null.c'],
+    bounds='the class name is that of the k-th entry of the real diagnostics table (k symbolic over all named entries, ERROR-class ones included), flag and usage-hook presence symbolic',
+    stubs=['EXPRESSusage/ERRORusage_function: record the call', 'fprintf: empty body'],
+    out_of_claim='fedex.c option parsing that calls these (see C04 main gating)',
+    timeout={'quick': 600, 'thorough': 900}),
 ] + [
   H('report_m%d_c%d' % (m, c), 'c', 'harness/C20/h_report.c', tracked=['src/express/error.c'],
     defs={'quick': {'ARGLEN': 4, 'VERIF_OUT_CAP': 128, 'VERIF_STR_MAX': 128, 'ONLY_MODE': m, 'ONLY_CODE': c}, 'thorough': {'ARGLEN': 6, 'VERIF_OUT_CAP': 128, 'VERIF_STR_MAX': 128, 'ONLY_MODE': m, 'ONLY_CODE': c}}, unwind=130,   # VERIF_STR_MAX: the buffered modes print the whole stored message through one %s
@@ -30,6 +37,7 @@ HARNESSES += [
     stubs=['ERRORreport_with_line: records its arguments'], out_of_claim='other lexer call sites (scanner rules in expscan.l)'),
 ]
 JOBS = 12
+JOBS_THOROUGH = 3   # the buffered-mode queries need up to 20 GB each
 MANIFEST = {
   'level_text': 'Bounded model checking of the real error.c: for every argument string/char/count within the bounds, each lexical diagnostic raised through ERRORreport_with_line and the resolver-path control prints exactly "<file>:<line>: --ERROR PE<nnn>: <message quoting the offending text>", and ERRORset_warning/ERRORset_all_warnings change only the named warning class and can never disable an ERROR-class diagnostic (so -w/-i cannot change a verdict). Kernel level: the composition into a whole check-express run is not encoded.',
   'level_note': 'Trusted: CBMC 6.11, printf content model (diffed against glibc at setup), harness oracles. Assumes printable argument bytes, numbers 0..255, one diagnostic per call. Outside the claim: semantic diagnostics on parser-built ASTs, line-number accuracy, call sites in the scanner.',
